@@ -99,6 +99,12 @@ def run_case(case):
     wspec, scale, delta, method = case["wspec"], case["scale"], case["delta"], case["method"]
     viol = []
     base = np.array(case["data"], dtype=float) if case.get("data") is not None else sample(src, n, zeros, ties)
+    if case.get("tiny"):            # a few strictly positive but very small observations (they are observations, not zeros)
+        base = np.sort(np.asarray(base, dtype=float))
+        k0 = int(np.sum(base == 0))
+        base[k0:k0 + 3] = [1e-12, 2e-9, 9e-9]
+    if case.get("data_scale"):      # the whole record in a very small / very large unit
+        base = np.asarray(base, dtype=float) * case["data_scale"]
     if case.get("int_data"):        # observations recorded as integers (whole centimetres, counts): int64 array / list of python ints
         base = np.round(base * 100).astype(np.int64)
     xs = np.sort(base).astype(float)
@@ -158,12 +164,15 @@ def run_case(case):
                                                 "ref_beta": rb, "scale": scale})
             else:
                 e0 = xspace_error(xs, wref, d)
-                for h in (1e-2, -1e-2, 3e-2, -3e-2):
-                    e1 = xspace_error(xs, wref, d * (1 + h))
-                    if e0 is None or e1 is None:
+                # a descent direction: the error is lower at 1 % AND at 3 % on the same side (for small delta the objective
+                # carries numerical noise of ~1 % from 1 - p^(1/delta); a single lower probe is not a descent direction)
+                for sgn in (1.0, -1.0):
+                    e1 = xspace_error(xs, wref, d * (1 + sgn * 1e-2))
+                    e3 = xspace_error(xs, wref, d * (1 + sgn * 3e-2))
+                    if e0 is None or e1 is None or e3 is None:
                         continue
-                    if not e0 <= e1 * (1 + 1e-6) + 1e-300:
-                        bad("delta_not_local_minimiser", {"order": how, "delta": d, "err": e0, "h": h, "err_at_h": e1})
+                    if e1 * (1 + 1e-6) + 1e-300 < e0 and e3 * (1 + 1e-6) + 1e-300 < e0:
+                        bad("delta_not_local_minimiser", {"order": how, "delta": d, "err": e0, "side": sgn, "err_at_1pct": e1, "err_at_3pct": e3})
                         break
     # order invariance (fixed delta: to round-off; free delta: optimiser tolerance)
     if "sorted" in results:
@@ -204,6 +213,15 @@ def main(ctx):
         for wspec, delta in (("none", 2.35), ("quadratic", 2.35), ("arr_irregular", 1.0), ("quadratic", None)):
             cases.append({"src": "ew", "n": n, "zeros": n % 3 == 0 and 1 or 0, "ties": n % 2 == 0, "wspec": wspec, "scale": 7.0,
                           "delta": delta, "method": "wlsq"})
+    # very small positive observations, and whole records in very small / large units
+    for n in (30, 200):
+        for zeros in (0, 1):
+            for wspec in ("none", "arr_irregular", "arr_inv", "quadratic"):
+                for delta in (1.0, 2.35, None):
+                    cases.append({"src": "ew", "n": n, "zeros": zeros, "ties": False, "wspec": wspec, "scale": 1.0, "delta": delta, "method": "wlsq", "tiny": True})
+                    for dsc in (1e-9, 1e-6, 1e6):
+                        cases.append({"src": "ew", "n": n, "zeros": zeros, "ties": False, "wspec": wspec, "scale": 1.0, "delta": delta, "method": "wlsq",
+                                      "data_scale": dsc})
     # integer-typed observations (float weights must stay float, keyword weights must be computed in float)
     for n in (30, 200):
         for zeros in (0, 1):
